@@ -66,6 +66,13 @@ def r1(repo, chk):
             chk.ob("R1", f"{where}: ack_queue.add only in receive_datagram", where == "QuicConnection.receive_datagram", "a second place records packets as received", fn.loc(c))
         elif k == "subtract":
             pass
+        elif k == "shift":
+            # bounding the queue (RFC 9000 13.2.4): only the oldest range may be dropped, only when the queue is over its cap,
+            # and only where packets are recorded
+            at = fn.guard_atoms(c)
+            q = norm(c.func.value)
+            ok = where == "QuicConnection.receive_datagram" and any(a[1] and a[0].startswith(f"len({q}) > ") for a in at) and any(fn.before(a2, c) or fn.cfg.reaches(fn.cfg.node_of(a2), fn.cfg.node_of(c)) for f2, a2 in [(f3, c3) for f3, c3, k3 in sites if k3 == "add" and f3 is fn])
+            chk.ob("R1", f"{where}: `{norm(c)[:50]}` only drops the oldest range of an over-long queue", ok, "ranges are dropped from the ACK queue outside the size cap", fn.loc(c))
         else:
             chk.ob("R1", f"{where}: `{norm(c)[:50]}` does not mutate the ACK queue", False, f"unexpected mutator .{k}() on an ACK queue", fn.loc(c))
     if not adds or not subs:
